@@ -24,6 +24,7 @@ CONFIGS = {
 }
 
 MEM_LIMIT_KB = 24 * 1024 * 1024
+DEFAULT_UNWIND = 64
 
 # config -> path of the whole library (every /repo/src/**/*.c, unmodified) precompiled into one goto binary for
 # this run; jobs that name library sources link against it, so a new cross-file call inside the library resolves
@@ -155,6 +156,8 @@ def classify(pr, job, harness_file):
         tag = job.clause_map.get('%s:%s' % (os.path.basename(pr.file), pr.line))
     else:
         tag = None
+    if 'undefined function should be unreachable' in d:
+        return 'undefined', None
     if '.postcondition.' in n or d.startswith('Check ensures clause'):
         return 'post', tag
     if '.assigns.' in n or 'is assignable' in d or 'frame condition' in d.lower():
@@ -462,13 +465,31 @@ def _run_job_once(job, workroot, keep=False):
         names = []
         for m in re.finditer(r'^Loop (\S+)\.(\d+):\n\s+file (\S+) line (\d+) function (\S+)', sl, re.M):
             for fn, bound in job.unwind.items():
-                if m.group(1) == fn or m.group(1).startswith(fn + '_wrapped') or m.group(5) == fn:
+                if fn == '*repo*':
+                    # every loop whose code comes from the repository (library or example), wherever it lives now
+                    if m.group(3).startswith(REPO + '/') or '/examples/' in m.group(3) or '/src/avtp/' in m.group(3):
+                        names.append('%s.%s:%d' % (m.group(1), m.group(2), bound))
+                elif m.group(1) == fn or m.group(1).startswith(fn + '_wrapped') or m.group(5) == fn:
                     names.append('%s.%s:%d' % (m.group(1), m.group(2), bound))
         if not names:
             res.reason = 'bounded stand-in: loops of %s not found in the instrumented binary' % list(job.unwind)
             res.wall = time.time() - t0
             return res
         job.unwindset = ','.join(sorted(set(names)))
+    default_unwind = False
+    if not job.unwind and not job.unwindset and not job.no_dfcc:
+        # Loops of repository code that have no loop contract in this obligation (normally none are reachable: constant-bound
+        # loops, dead switch arms).  A change can add one (a new `while` in a helper); without a bound symbolic execution would
+        # not return.  They get a default bound with unwinding assertions; exceeding it makes the obligation UNDECIDED, and a
+        # real failure found within the bound is a real counterexample.
+        rc, sl, _ = _run(['goto-instrument', '--show-loops', target], wd, 120, res.cmds)
+        names = []
+        for m in re.finditer(r'^Loop (\S+)\.(\d+):\n\s+file (\S+) line (\d+) function (\S+)', sl or '', re.M):
+            if m.group(3).startswith(REPO + '/') or '/examples/' in m.group(3) or '/src/avtp/' in m.group(3):
+                names.append('%s.%s:%d' % (m.group(1), m.group(2), DEFAULT_UNWIND))
+        if names:
+            job.unwindset = ','.join(sorted(set(names)))
+            default_unwind = True
     cb = ['cbmc', target] + CBMC_CHECKS + ['--json-ui'] + job.extra_cbmc
     if job.no_dfcc:
         cb += ['--function', job.entry]
@@ -608,6 +629,20 @@ def _run_job_once(job, workroot, keep=False):
         if not any(p.cls == 'loop' for p in res.props):
             res.reason = 'loop contract silently dropped (no loop_invariant obligations)'
             return res
+    undef = [p for p in res.props if p.cls == 'undefined' and p.status == 'FAILURE']
+    if undef:
+        # DFCC turns a call to a function that has neither a body nor a contract in this obligation into an assertion; that says
+        # nothing about the property (the code started to call something the obligation does not know)
+        res.reason = 'calls a function without body or contract in this obligation (%s): undecided' % undef[0].name.split('.')[0]
+        return res
+    if default_unwind:
+        job.unwindset = None        # (the job object may be run again, e.g. with more object bits)
+        hit = [p for p in res.props if p.cls == 'unwind' and p.status == 'FAILURE']
+        if hit and not [p for p in res.failed() if p.cls != 'unwind']:
+            res.reason = ('a loop without loop contract needs more than %d iterations (%s line %s): undecided'
+                          % (DEFAULT_UNWIND, os.path.basename(hit[0].file or '?'), hit[0].line))
+            return res
+        res.props = [p for p in res.props if p.cls != 'unwind']
     if res.failed():
         res.status = 'failed'
     else:
